@@ -29,6 +29,7 @@ type scenario struct {
 	declarer []int // declarer[e] = index in chain of the block after which epoch e's data is available
 	chain    []*chainBlock
 	serial   int
+	altEpoch *refEpoch // what the side branch announces for the last epoch (nil: no side branch)
 }
 
 var cMenu = [][2]uint64{{1, 1}, {1, 2}, {1, 4}, {3, 4}, {1, 10}, {1, 200}}
@@ -155,8 +156,8 @@ func (sc *scenario) build(maxEpoch int) {
 	// the chain may be current, slightly ahead of the verifier's clock, or old (a syncing node)
 	offMenu := []int64{0, -3, 2, -1500}
 	sc.S0 = uint64(int64(now) + offMenu[k.Choose(len(offMenu), "chain-age")])
-	add := func(slot uint64, extra []types.ConsensusDigest, handle []types.BabeConsensusDigest) *chainBlock {
-		parent := sc.chain[len(sc.chain)-1]
+	var mainTip *chainBlock
+	addAt := func(parent *chainBlock, slot uint64, extra []types.ConsensusDigest, handle []types.BabeConsensusDigest) *chainBlock {
 		h := sc.fillerHeader(parent, slot, extra...)
 		n.importBlock(h)
 		for _, d := range handle {
@@ -164,11 +165,19 @@ func (sc *scenario) build(maxEpoch int) {
 				panic(fmt.Sprintf("HandleBABEDigest: %v", err))
 			}
 		}
-		cb := &chainBlock{hdr: h, hash: h.Hash(), number: h.Number, slot: slot, epoch: sc.refEpochOf(parent, slot)}
+		cb := &chainBlock{hdr: h, hash: h.Hash(), number: h.Number, slot: slot, epoch: sc.refEpochOf(parent, slot), side: parent.side}
 		sc.chain = append(sc.chain, cb)
 		synctest.Wait()
 		return cb
 	}
+	mainTip = genesis
+	add := func(slot uint64, extra []types.ConsensusDigest, handle []types.BabeConsensusDigest) *chainBlock {
+		mainTip = addAt(mainTip, slot, extra, handle)
+		return mainTip
+	}
+	// a competing branch for the last epoch: a sibling of the block that announces it, announcing other data
+	sideBranch := maxEpoch >= 1 && k.Bool(1, 3, "side-branch-with-other-epoch-data")
+	var sideParent *chainBlock
 	slot := sc.S0
 	for e := 0; e <= maxEpoch; e++ {
 		// first block of epoch e; it announces epoch e+1
@@ -190,7 +199,10 @@ func (sc *scenario) build(maxEpoch int) {
 				extra = append(extra, ci2)
 				cfgDigest = &d2
 			}
-			if k.Bool(1, 3, "epoch-data-persisted") {
+			if sideBranch && e+1 == maxEpoch {
+				sideParent = mainTip // the announcing block of the last epoch gets a sibling below
+			}
+			if !(sideBranch && e+1 == maxEpoch) && k.Bool(1, 3, "epoch-data-persisted") {
 				// as after finalisation: the definitions are in the database
 				persisted = true
 				if err := n.es.SetEpochDataRaw(uint64(e+1), &types.EpochDataRaw{Authorities: next.auths, Randomness: next.rand}); err != nil {
@@ -222,6 +234,40 @@ func (sc *scenario) build(maxEpoch int) {
 		if slot < last && k.Bool(1, 2, "filler") {
 			slot = slot + 1 + uint64(k.Choose(int(last-slot), "filler-slot"))
 			add(slot, nil, nil)
+		}
+	}
+	if sideParent != nil {
+		e := maxEpoch - 1
+		alt, changed := sc.drawEpoch("alt-epoch", sc.epochs[e])
+		sc.altEpoch = alt
+		ci, d := babeConsensusItem(types.NextEpochData{Authorities: alt.auths, Randomness: alt.rand})
+		extra := []types.ConsensusDigest{ci}
+		handle := []types.BabeConsensusDigest{d}
+		if changed {
+			v := types.NewVersionedNextConfigData()
+			if err := v.SetValue(types.NextConfigDataV1{C1: alt.c1, C2: alt.c2, SecondarySlots: alt.sec}); err != nil {
+				panic(err)
+			}
+			ci2, d2 := babeConsensusItem(v)
+			extra = append(extra, ci2)
+			handle = append(handle, d2)
+		} else {
+			// no configuration change announced on this branch: the configuration of the previous epoch goes on
+			alt.c1, alt.c2, alt.sec = sc.epochs[e].c1, sc.epochs[e].c2, sc.epochs[e].sec
+		}
+		aslot := sc.S0 + uint64(e)*sc.L + uint64(k.Choose(int(sc.L), "side-first-slot"))
+		if e == 0 && sideParent.number == 0 {
+			// a second block #1: the node counts epochs from the slot of the block #1 of its best chain, so
+			// the two first blocks share the slot (two epoch grids in one tree are not what is looked at here)
+			aslot = sc.S0
+		}
+		sideParent = &chainBlock{hdr: sideParent.hdr, hash: sideParent.hash, number: sideParent.number, slot: sideParent.slot, epoch: sideParent.epoch, side: true}
+		sb := addAt(sideParent, aslot, extra, handle)
+		k.Event("announce-on-side-branch", "block #%d (epoch %d) on a side branch announces epoch %d differently: authorities=%d c=%d/%d secondary=%d", sb.number, e, maxEpoch, len(alt.auths), alt.c1, alt.c2, alt.sec)
+		k.Probe("side-branch-with-other-epoch-data")
+		last := sc.S0 + uint64(e+1)*sc.L - 1
+		if aslot < last && k.Bool(1, 2, "side-filler") {
+			addAt(sb, aslot+1+uint64(k.Choose(int(last-aslot), "side-filler-slot")), nil, nil)
 		}
 	}
 }
@@ -343,4 +389,22 @@ func (sc *scenario) buildBlock(d *draft) built {
 	add(sd)
 	b.hdr = mk(0)
 	return b
+}
+
+// epochRef: the epoch data a block with this parent must be verified against: the side branch has its
+// own announcement for the last epoch.
+func (sc *scenario) epochRef(parent *chainBlock, epoch uint64) *refEpoch {
+	if parent.side && sc.altEpoch != nil && int(epoch) == len(sc.epochs)-1 {
+		return sc.altEpoch
+	}
+	return sc.epochs[epoch]
+}
+
+// declared: is the data of epoch e announced on the chain of the block at index pi?
+func (sc *scenario) declared(pi int, e uint64) bool {
+	p := sc.chain[pi]
+	if p.side {
+		return int(e) <= len(sc.epochs)-1 // the side branch starts at (or after) the announcing block's parent: everything up to the last epoch is announced on it
+	}
+	return pi >= sc.declarer[e]
 }
